@@ -351,6 +351,10 @@ fn directed(sh: &mut Shard, tier: Tier) {
                 case(sh, "builtin-on-long-text", &format!("stel {t} = 1; {t}x"), 20_000);
                 case(sh, "builtin-on-long-text", &format!("1 + \"{t}\""), 20_000);
                 case(sh, "builtin-on-long-text", &format!("{t}(1)"), 20_000);
+                // the same text inside every construct whose refusal may quote the offending expression or value
+                for tpl in ERROR_TEMPLATES {
+                    case(sh, "error-quotes-long-text", &tpl.replace("TEXT", &t), 20_000);
+                }
             }
         }
     }
@@ -446,6 +450,41 @@ fn directed(sh: &mut Shard, tier: Tier) {
         }
     }
 }
+
+/// Programs that are refused — by the parser, the compiler or the machine — with a message that may quote the
+/// offending expression, name or value; TEXT is replaced by a long text with one wide character.
+const ERROR_TEMPLATES: &[&str] = &[
+    "[\"TEXT\", 1][0][0]",
+    "stel i = 0; [\"kaas\", \"TEXT\"][i][0]",
+    "functie f(x) { x } f(\"TEXT\")()",
+    "(\"TEXT\" + 1) = 2",
+    "functie f(x) { x } f(\"TEXT\") = 1",
+    "\"TEXT\"()",
+    "[\"TEXT\"][0][0] = 2",
+    "-\"TEXT\"",
+    "!\"TEXT\" + 1",
+    "\"TEXT\" < 1",
+    "\"TEXT\" * \"TEXT\"",
+    "[1][\"TEXT\"]",
+    "\"TEXT\"[999]",
+    "\"TEXT\"[-999] = \"x\"",
+    "als \"TEXT\" { 1 }",
+    "zolang \"TEXT\" { stop }",
+    "stel \"TEXT\" = 1",
+    "functie f(\"TEXT\") { 1 }",
+    "TEXT = 1",
+    "stel x = 1; x.TEXT",
+    "\"TEXT",
+    "print(\"{} {}\", \"TEXT\")",
+    "lengte(\"TEXT\", 1)",
+    "[TEXT]",
+    "functie g() { antwoord \"TEXT\" + 1 } g()",
+    "[\"TEXT\"] + 1",
+    "[[\"TEXT\"]] == 1 + [\"TEXT\"]",
+    "\"TEXT\"[\"TEXT\"]",
+    "1(\"TEXT\")",
+    "(\"TEXT\" == 1)[0]",
+];
 
 fn run(sh: &mut Shard) {
     let tier = sh.cfg.tier;
